@@ -115,6 +115,29 @@ def generate(repo: str) -> tuple[str, str]:
         raise TranslateError("LoopOutputStep.run: exit test is not `self.termination_map and all(self.termination_map)`")
     if w.body.index(exits[0]) < w.body.index(emits[0]):
         raise TranslateError("LoopOutputStep.run: the exit test precedes the emission")
+    # ---- LoopCombinatorStep.run: the iteration-termination checklist -----------------------------
+    crun = parse_function(step_py, "run", cls="LoopCombinatorStep")
+    clears = find_nodes(crun, ast.If, lambda n: len(n.body) == 1 and _ns(n.body[0]) == "self.iteration_termination_checklist.get(task_name).clear()")
+    if len(clears) != 1 or clears[0].orelse:
+        raise TranslateError("LoopCombinatorStep.run: `if <test>: self.iteration_termination_checklist.get(task_name).clear()` not found")
+    chk_clears = ExprTranslator({"token.value": "st"}, enums={"Status": "SFV.Status"}).tr(clears[0].test)
+    adds = find_nodes(crun, ast.If, lambda n: len(n.body) == 1 and _ns(n.body[0]) == "self.iteration_termination_checklist[task_name].add(token.tag)")
+    if len(adds) != 1 or adds[0].orelse:
+        raise TranslateError("LoopCombinatorStep.run: `if <test>: self.iteration_termination_checklist[task_name].add(token.tag)` not found")
+    t = adds[0].test
+    if not (isinstance(t, ast.Compare) and len(t.ops) == 1 and isinstance(t.ops[0], (ast.In, ast.NotIn))
+            and _ns(t.left) == "'.'.join(token.tag.split('.')[:-1])" and _ns(t.comparators[0]) == "self.iteration_termination_checklist[task_name]"):
+        raise TranslateError(f"LoopCombinatorStep.run: checklist add guard is not `<prefix of token.tag> [not] in checklist`: `{ast.unparse(t)}`")
+    chk_adds = "(!prefixIn)" if isinstance(t.ops[0], ast.NotIn) else "prefixIn"
+    removes = find_nodes(crun, ast.If, lambda n: _ns(n.test) == "token.taginself.iteration_termination_checklist[task_name]")
+    if len(removes) != 1 or "self.iteration_termination_checklist[task_name].remove(token.tag)" not in _ns(removes[0]):
+        raise TranslateError("LoopCombinatorStep.run: `if token.tag in checklist: checklist.remove(token.tag)` not found")
+    regets = find_nodes(crun, ast.If, lambda n: "self.get_input_ports()[task_name].get(" in _ns(n) and "input_tasks.append" in _ns(n.body[0]))
+    regets = [n for n in regets if "iteration_termination_checklist" in _ns(n.test)]
+    if len(regets) != 1 or regets[0].orelse:
+        raise TranslateError("LoopCombinatorStep.run: the re-`get` guard `if not (task_name in terminated and len(checklist) == 0)` not found")
+    chk_reads = ExprTranslator({"task_name in terminated": "terminated",
+                                "len(self.iteration_termination_checklist[task_name])": "n"}).tr(regets[0].test)
     # ---- CWL _process_output -------------------------------------------------------------------
     cwl_py = os.path.join(repo, "streamflow/cwl/step.py")
     pa = parse_function(cwl_py, "_process_output", cls="CWLLoopOutputAllStep")
@@ -142,7 +165,8 @@ def generate(repo: str) -> tuple[str, str]:
     if _ns(srt.args[0] if isinstance(srt, ast.Call) and srt.args else ast.Constant(None)) != "self.token_map.get(tag,[Token(value=None)])":
         raise TranslateError("CWLLoopOutputLastStep._process_output: default is not [Token(value=None)]")
     key_last = _sort_key(srt, "CWLLoopOutputLastStep._process_output")
-    text = f"""/-! GENERATED by harness/sfv/translate/loopguards.py from streamflow/workflow/combinator.py, step.py, cwl/step.py — do not edit. -/
+    text = f"""import SFV.Model.StepBase
+/-! GENERATED by harness/sfv/translate/loopguards.py from streamflow/workflow/combinator.py, step.py, cwl/step.py — do not edit. -/
 namespace SFV.Gen
 
 /-- `self.iteration_map[tag] = …` on the first arrival of a loop instance (LoopCombinator._product) -/
@@ -161,6 +185,12 @@ def loopEmits (count size : Int) : Bool := {emit}
 def loopSortKeyAll (last : Int) : Int := {key_all}
 /-- sort key of CWLLoopOutputLastStep._process_output over the last tag component -/
 def loopSortKeyLast (last : Int) : Int := {key_last}
+/-- LoopCombinatorStep.run: a termination token with status `st` clears the port's checklist -/
+def loopChecklistClears (st : SFV.Status) : Bool := {chk_clears}
+/-- LoopCombinatorStep.run: a data token is added to the checklist (`prefixIn` = its tag prefix is on the checklist) -/
+def loopChecklistAdds (prefixIn : Bool) : Bool := {chk_adds}
+/-- LoopCombinatorStep.run: a new `get` is issued on the port (`terminated` = its termination token was taken, `n` = len(checklist)) -/
+def loopKeepsReading (terminated : Bool) (n : Int) : Bool := {chk_reads}
 
 end SFV.Gen
 """
